@@ -69,31 +69,31 @@ def inferExtent (d : Dim) : Nat := (d.entries.map (·.1)).foldl max d.common + 1
 
 /-! ## regions -/
 
-abbrev Region := List (Cell × Int)
+abbrev Region (α : Type) := List (Cell × α)
 
-def rget (r : Region) (c : Cell) : Int :=
+def rget {α : Type} [Zero α] (r : Region α) (c : Cell) : α :=
   match r.find? (fun p => p.1 == c) with
   | some p => p.2
   | none => 0
 
 /-- assignment `region[c] = v` (the latest write wins) -/
-def rput (r : Region) (c : Cell) (v : Int) : Region := (c, v) :: r
+def rput {α : Type} (r : Region α) (c : Cell) (v : α) : Region α := (c, v) :: r
 
 /-- all cells of a box with the given per-axis lengths -/
 def allCells : List Nat → List Cell
   | [] => [[]]
   | n :: ns => (List.range n).flatMap fun i => (allCells ns).map (i :: ·)
 
-def materialise (f : Cell → Int) (cells : List Cell) : Region := cells.map fun c => (c, f c)
+def materialise {α : Type} (f : Cell → α) (cells : List Cell) : Region α := cells.map fun c => (c, f c)
 
 /-- working-array cell of walk coordinates: `-1` is the last index of an axis of length `extent+1` -/
-def cellOf (exts : List Nat) (co : Co) : Cell := (exts.zip co).map fun (e, o) => o.getD e
+def cellOf (exts : List Nat) (co : Co) : Cell := List.zipWith (fun e o => o.getD e) exts co
 
 inductive Err | indexError (cell : Cell) | shape (m : String)
 deriving Repr, DecidableEq
 
 /-- `counts[x_coords] = len(x_rowids)` for each walk item, in walk order -/
-def fillCount (exts : List Nat) : List (Co × Rows) → Region → Except Err Region
+def fillCount (exts : List Nat) : List (Co × Rows) → Region Int → Except Err (Region Int)
   | [], r => pure r
   | it :: rest, r =>
     let cell := cellOf exts it.1
@@ -102,10 +102,10 @@ def fillCount (exts : List Nat) : List (Co × Rows) → Region → Except Err Re
 
 /-- `numpy.zeros(working_shape)` with `counts[corner] = N`; the corner (index `-1` on every axis)
 is the cell `exts` itself -/
-def initCount (exts : List Nat) (N : Nat) : Region := rput [] exts (N : Int)
+def initCount (exts : List Nat) (N : Nat) : Region Int := rput [] exts (N : Int)
 
 /-- one marginal-difference pass along axis `k`, pointwise -/
-def passFn (exts cms : List Nat) (k : Nat) (R : Cell → Int) (c : Cell) : Int :=
+def passFn {α : Type} [Zero α] [Add α] [Sub α] (exts cms : List Nat) (k : Nat) (R : Cell → α) (c : Cell) : α :=
   if c.getD k 0 = cms.getD k 0 then
     R (c.set k (exts.getD k 0)) - ((List.range (exts.getD k 0)).map fun j => R (c.set k j)).sum
   else R c
@@ -113,7 +113,7 @@ def passFn (exts cms : List Nat) (k : Nat) (R : Cell → Int) (c : Cell) : Int :
 def workCells (exts : List Nat) : List Cell := allCells (exts.map (· + 1))
 
 /-- `_compute_common_cells_from_marginal_diffs`: passes along axes 0..k-1 in order -/
-def passes (exts cms : List Nat) : Nat → Region → Region
+def passes {α : Type} [Zero α] [Add α] [Sub α] (exts cms : List Nat) : Nat → Region α → Region α
   | 0, R => R
   | k + 1, R =>
     let R' := passes exts cms k R
